@@ -936,6 +936,29 @@ def nothing_under_lock(chk, P, prefix):
     chk.ob("%s.R3:nothing-under-lock" % prefix, "no await, user callback (closure or method of a caller-supplied generic type other than T: Channel), watcher notification or blocking wait while the state lock is held", f)
 
 
+def state_stays_inside(chk, P, prefix):
+    """Layering: the channel's shared state is locked only by the channel's own types (methods of Sender / Receiver / ChannelMetrics and their
+    Drop impls), whose decision tables the other rules check.  The blocking and async adaptors (sync / tokio / web modules) answer their
+    callers only through those operations - a wrapper that locks the state itself can answer from half of a decision (`queue empty` without
+    `no batch in flight`)."""
+    def f():
+        ev = []
+        for b in batcher_bodies(P):
+            ls = lock_calls(b)
+            if not ls:
+                continue
+            root = b.key.split("::{closure")[0]
+            if re.search(r"emit_batcher::(Sender|Receiver|ChannelMetrics)(::<|<)", root):
+                ev.append(root)
+                continue
+            return False, ("%s locks the channel's state itself (at %s): only the Sender / Receiver operations - whose decisions are checked - may read or write "
+                           "it; an adaptor must go through when_flushed / when_empty / try_send" % (b.key, ls[0].loc)), [], ls[0].loc
+        if len(ev) < 7:
+            raise mir.AnchorMissing("bodies that lock the channel state (found %d)" % len(ev))
+        return True, "", sorted(set(ev))
+    chk.ob("%s.R3:state-stays-inside" % prefix, "only the channel's own operations lock its state; adaptors go through them", f)
+
+
 def termination(chk, P, prefix):
     for ty in ("Sender", "Receiver"):
         def f(ty=ty):
